@@ -893,6 +893,28 @@ func nilnessPlain(e ssa.Value, p *ssa.BasicBlock) (isNil, known bool) {
 			return bo.Op == token.NEQ, true
 		}
 	}
+	// a pointer that was dereferenced on the way here (field access or load in a block that dominates p,
+	// or in p itself) is not nil: had it been, control would not have got here
+	if _, isPtr := e.Type().Underlying().(*types.Pointer); isPtr {
+		for _, u := range *refs {
+			deref := false
+			switch x := u.(type) {
+			case *ssa.FieldAddr:
+				deref = x.X == e
+			case *ssa.UnOp:
+				deref = x.Op == token.MUL && x.X == e
+			case *ssa.Store:
+				deref = x.Addr == e
+			}
+			if !deref {
+				continue
+			}
+			ub := u.Block()
+			if ub == p || (ub != nil && ub.Dominates(p)) {
+				return false, true
+			}
+		}
+	}
 	return false, false
 }
 
@@ -1567,6 +1589,52 @@ type RetPoint struct {
 	via     map[*ssa.BasicBlock]bool // the join blocks between At and Join
 }
 
+// IsThreadedJoin: b only merges values and branches on them (phis, comparisons, negations, an If), and for
+// every predecessor the branch taken is determined by that predecessor (jump threading): control does
+// not really rejoin in b, each way in has its own way out.
+func IsThreadedJoin(b *ssa.BasicBlock) bool {
+	if len(b.Preds) < 2 || len(b.Instrs) == 0 {
+		return false
+	}
+	if _, isIf := b.Instrs[len(b.Instrs)-1].(*ssa.If); !isIf {
+		return false
+	}
+	for _, in := range b.Instrs {
+		switch in.(type) {
+		case *ssa.Phi, *ssa.BinOp, *ssa.UnOp, *ssa.If, *ssa.DebugRef:
+		default:
+			return false
+		}
+		if u, isU := in.(*ssa.UnOp); isU && u.Op != token.NOT {
+			return false
+		}
+	}
+	thr := threadInfo(b.Parent())
+	for _, p := range b.Preds {
+		if _, ok := thr[Edge{p, b}]; !ok {
+			return false
+		}
+	}
+	return true
+}
+
+// ReachableUnder: this way of returning can be taken when only the blocks of reach are reachable and the
+// edges of cut are not taken.
+func (r *RetPoint) ReachableUnder(reach map[*ssa.BasicBlock]bool, cut map[Edge]bool) bool {
+	if !reach[r.At] {
+		return false
+	}
+	if r.Join == nil {
+		return true
+	}
+	for _, s := range r.At.Succs {
+		if (s == r.Join || r.via[s]) && !cut[Edge{From: r.At, To: s}] {
+			return true
+		}
+	}
+	return false
+}
+
 // Block is the block at whose end this way of returning is decided.
 func (r *RetPoint) Block() *ssa.BasicBlock { return r.At }
 
@@ -1663,6 +1731,26 @@ func ReturnPoints(fn *ssa.Function) []*RetPoint {
 			}
 		}
 		expand(b, ret.Results, 0)
+	}
+	return out
+}
+
+// ReturnWays is ReturnPoints that also splits, per predecessor, a return block that is shared by several
+// ways although it merges no value (`return false, args` reached from two tests): each way in carries its
+// own facts.
+func ReturnWays(fn *ssa.Function) []*RetPoint {
+	var out []*RetPoint
+	for _, r := range ReturnPoints(fn) {
+		b := r.At
+		pure := r.Join == nil && len(b.Preds) > 1 && len(b.Instrs) == 1
+		if !pure {
+			out = append(out, r)
+			continue
+		}
+		via := map[*ssa.BasicBlock]bool{b: true}
+		for _, p := range b.Preds {
+			out = append(out, &RetPoint{Ret: r.Ret, Results: r.Results, At: p, Join: b, via: via})
+		}
 	}
 	return out
 }
